@@ -66,7 +66,7 @@ def check_variant(ctx, k, kind, bound):
     adversarial(ctx)
     base = ctx.sandbox_base(32)
     p = ctx.sym("p", 64)
-    if "_vol_" in k or k == "k_cav_volptr_long":
+    if "_vol" in k or k == "k_cav_volptr_long":
         ctx.assume(z3.UGE(p, base), z3.ULE(p - base, BV(SIZE - 4, 64)))
     else:
         ctx.assume(z3.Or(p == 0, ctx.in_region(p, base, SIZE)))
@@ -74,7 +74,7 @@ def check_variant(ctx, k, kind, bound):
     ctx.eng.max_strlen = bound
     ctx.eng.strlen_assume_bound = True
     ctx.eng.user_max_alloc = 4096
-    if kind in ("range", "deny"):
+    if kind in ("range", "deny", "bufaddr"):
         n = ctx.sym("n", 64)
         ctx.assume(z3.ULE(n, bound))
         args.append(n)
@@ -107,6 +107,17 @@ def check_variant(ctx, k, kind, bound):
                 ctx.discharged += 1
         if [e for e in q.events if e[0] == "app-oob"]:
             ctx.fail(q, "application buffer overrun: %r" % ([e for e in q.events if e[0] == "app-oob"][0],))
+        # content handed to the verifier must come from sandbox reads, never from uninitialised application bytes
+        for ent in lg:
+            for x in ent[1:]:
+                if not isinstance(x, int) and "uninit_" in str(x):
+                    ctx.fail(q, "the verifier's object contains bytes that were never fetched from the sandbox (uninitialised application memory)")
+                    break
+        if kind == "bufaddr":
+            a = lg[0][2] if not isinstance(lg[0][2], int) else BV(lg[0][2], 64)
+            ctx.require(q, z3.Or(a == 0, z3.And(z3.UGE(a, base), z3.ULE(zext(a - base, 128) + zext(n, 128), BV(SIZE, 128)), n != 0)),
+                        "the address handed to the verifier is the one that was null- and range-checked (a buffer of n bytes inside the sandbox), "
+                        "whatever the sandbox writes to the pointer slot meanwhile")
         # (3) strings
         if kind in ("string_u", "string_s") and not (isinstance(obj, int) and obj == 0):
             sl = q.user.get("strlen") or []
@@ -139,7 +150,7 @@ def check_variant(ctx, k, kind, bound):
 
 VARIANTS = [("k_cav_vol_int", "val"), ("k_cav_vol_long", "val"), ("k_cav_ptr_int", "ptr"), ("k_cav_volptr_long", "ptr"), ("k_cav_struct", "struct"),
             ("k_cav_arr", "arr"), ("k_cavr", "range"), ("k_cavs_unique", "string_u"), ("k_cavs_string", "string_s"), ("k_deny_copy", "deny"),
-            ("k_cavs_vol_unique", "string_u"), ("k_cavs_vol_string", "string_s")]
+            ("k_cavs_vol_unique", "string_u"), ("k_cavs_vol_string", "string_s"), ("k_cav_arr2d", "arr"), ("k_cavba_vol", "bufaddr")]
 
 
 def check_seq(ctx, k, kind):
@@ -147,11 +158,11 @@ def check_seq(ctx, k, kind):
     base = ctx.sandbox_base(32)
     b0 = 0x300000000
     mem = {b0 + 0x40 + i: v for i, v in enumerate(b"hello\0zz" + bytes([0x11, 0x22, 0x33, 0x44, 0, 0, 0, 0, 9, 8, 7, 6, 5, 4, 3, 2]))}
-    if "_vol_" in k or k == "k_cav_volptr_long":
+    if "_vol" in k or k == "k_cav_volptr_long":
         mem = {b0 + 0x40: 0x80, b0 + 0x41: 0, b0 + 0x42: 0, b0 + 0x43: 0}
         mem.update({b0 + 0x80 + i: v for i, v in enumerate(b"abc\0defg")})
     ctx.eng.max_strlen = 8
-    vec = [[b0, b0 + 0x40] + ([3] if kind in ("range", "deny") else [])]
+    vec = [[b0, b0 + 0x40] + ([3] if kind in ("range", "deny", "bufaddr") else [])]
     ctx.job.compare_logs = False
     ctx.validate(k, vec, mem=mem, base=b0)
     if ctx.validated < 1:
